@@ -290,9 +290,11 @@ def _arr_cls_attr(it, cls, name):
 I.CLS_ATTR_MODELS[REG.Array] = _arr_cls_attr
 con = contract("cohdl.std.reg.reg:Array.__init__", PROPS)
 for label, pgv, ownv in (("top-level", 0, 0x10), ("in-file-at-0x100", 0x100, 0x10), ("in-file-at-0x40", 0x40, 0), ("symbolic-parent", None, 0x20)):
-    for count, step in ((1, 4), (3, 4), (2, 8)):
-        def mk_self(env, ownv=ownv, count=count, step=step):
-            garg = SObj(_GArg, offset=ownv, end=ownv + count * step, array_step=step, array_type=SObj(_ElemType))
+    # span: the address range given for the array; the last element need not fill a whole step (0x10:0x24:8 holds
+    # elements at 0x10, 0x18 and 0x20)
+    for count, step, span in ((1, 4, 4), (3, 4, 12), (2, 8, 16), (3, 8, 20), (2, 8, 12)):
+        def mk_self(env, ownv=ownv, count=count, step=step, span=span):
+            garg = SObj(_GArg, offset=ownv, end=ownv + span, array_step=step, array_type=SObj(_ElemType))
             return SObj(I.SCls(REG.Array, own=ownv, garg=garg), _register_tools_=_Tools)
 
         def req(env, pgv=pgv, ownv=ownv):
@@ -303,7 +305,7 @@ for label, pgv, ownv in (("top-level", 0, 0x10), ("in-file-at-0x100", 0x100, 0x1
 
         ASELF = Built([], mk_self, lambda a: "None", lambda a: None)
         APARENT = Built([], (lambda pgv: lambda env: SObj(REG.RegFile, _global_offset_=(pgv if pgv is not None else env["parent_global"]), _parent_offset_=7))(pgv), lambda a: "None", lambda a: None)
-        c = Case(f"{label},{count}-elements-step-{step}", [ASELF, APARENT, NAME], array_spec(count, step), requires=req)
+        c = Case(f"{label},{count}-elements-step-{step}" + ("" if span == count * step else f"-span-{span}"), [ASELF, APARENT, NAME], array_spec(count, step), requires=req)
         c.extra_shapes = [PyInt("parent_global", 0, None, 0, 64), PyInt("own", 0, None, 0, 64)]
         c.native = False
         c.custom_replay = "contracts.c20_regs.replay_array_in_regfile"
